@@ -694,6 +694,29 @@ def _violation(res, fn, cfg, opts, solver, p, label, env, detail,
             used_env = Bc.env if 'Bc' in dir() else cand
             outcome = f[1]
             break
+    if not confirmed and lt_ is not None and opts.get('confirm_by_terms'):
+        # cases that inspect terms cannot be re-run on floats: the
+        # counter-example is confirmed on the terms the real chi code
+        # produced (real meaning of log / exp / erf, fixed smooth
+        # interpretation of the uninterpreted symbols)
+        ufs = UFRegistry()
+        for cand in candidates:
+            e2 = dict(cand)
+            for n in T.variables([lt_, rt_]):
+                if n not in e2 and n != 'pi':
+                    e2[n] = _default_value(n)
+            try:
+                a = T.evalf(lt_, e2, {'*': ufs})
+                b = T.evalf(rt_, e2, {'*': ufs})
+            except (T.Undefined, OverflowError, ZeroDivisionError,
+                    NotImplementedError, KeyError):
+                continue
+            if not close(a, b, 1e-6):
+                confirmed = True
+                used_env = e2
+                outcome = 'terms produced by the real code evaluate to ' \
+                    '%r vs %r' % (a, b)
+                break
     if not confirmed and env is None and opts.get('facts_final') and (
             detail.startswith('fact failed') or
             detail.startswith('condition is concretely false')):
